@@ -122,12 +122,12 @@ M += [('C09', 1, 'ancestry-one-level', [(D, """            while parents:
 # ---- C10
 M += [('C10', 1, 'archive-always-returns-to-running', [(ST, "        getattr(self, self.__prior + '_trigger')()", "        self.running_trigger()")]),
       
-      ('C10', 3, 'undocumented-edge-gitting-updating', [('Python/dawgie/pl/state.dot', """        running -> updating[label=update,
+      ('C10', 3, 'undocumented-edge-gitting-updating', [('Python/dawgie/pl/state.dot', """        updating -> loading[label=refresh,""", """        gitting -> updating[label=update,
                             trigger=update_trigger,
-                            source=running,""", """        running -> updating[label=update,
-                            trigger=update_trigger,
-                            source="*",""")]),
-      
+                            source=gitting,
+                            dest=updating,
+                            after=reload];
+        updating -> loading[label=refresh,""")]),
       ('C10', 5, 'legacy-submit-step3-twice', [('Python/dawgie/fe/submit.py', "        d.addCallbacks(self.step_2, self.failure)\n", "        d.addCallbacks(self.step_2, self.failure)\n        d.addCallbacks(self.step_3, self.failure)\n")]),
       
 ]
